@@ -423,7 +423,8 @@ func condReadsLoopWrites(loop *ast.RangeStmt, is *ast.IfStmt) string {
 	return bad
 }
 
-// sortedBeforeUse: after loop, the first statement mentioning slice s (in the enclosing block) is sort.X(s).
+// sortedBeforeUse: after loop, the first statement mentioning slice s (in the enclosing block) sorts s by a total order
+// (by the elements themselves).
 func sortedBeforeUse(fd *ast.FuncDecl, loop *ast.RangeStmt, s string) bool {
 	var blk *ast.BlockStmt
 	ast.Inspect(fd.Body, func(n ast.Node) bool {
@@ -459,11 +460,27 @@ func sortedBeforeUse(fd *ast.FuncDecl, loop *ast.RangeStmt, s string) bool {
 			continue
 		}
 		if es, ok := st.(*ast.ExprStmt); ok {
-			if ce, ok := es.X.(*ast.CallExpr); ok && strings.HasPrefix(callName(ce), "sort.") && len(ce.Args) >= 1 && nospace(ce.Args[0]) == s {
-				return true
-			}
-			if ce, ok := es.X.(*ast.CallExpr); ok && strings.HasPrefix(callName(ce), "slices.Sort") && len(ce.Args) >= 1 && nospace(ce.Args[0]) == s {
-				return true
+			if ce, ok := es.X.(*ast.CallExpr); ok && len(ce.Args) >= 1 && nospace(ce.Args[0]) == s {
+				switch callName(ce) {
+				case "sort.Strings", "sort.Ints", "sort.Float64s", "slices.Sort":
+					// sorted by the elements themselves: equal elements are indistinguishable
+					return true
+				case "sort.Slice", "sort.SliceStable", "slices.SortFunc", "slices.SortStableFunc":
+					// a comparator is accepted only when it is total on the collected elements: it compares the
+					// elements themselves (s[i] < s[j]); any projection (a line number, a length …) can tie, and the
+					// relative order of tied elements is the map's iteration order again
+					if len(ce.Args) == 2 {
+						if fl, ok := ce.Args[1].(*ast.FuncLit); ok && len(fl.Body.List) == 1 {
+							if rs, ok := fl.Body.List[0].(*ast.ReturnStmt); ok && len(rs.Results) == 1 {
+								t := nospace(rs.Results[0])
+								if t == s+"[i]<"+s+"[j]" || t == s+"[i]>"+s+"[j]" || t == "a<b" || t == "cmp.Compare(a,b)" || t == "strings.Compare(a,b)" {
+									return true
+								}
+							}
+						}
+					}
+					return false
+				}
 			}
 		}
 		return false
